@@ -22,7 +22,7 @@ func init() {
 				"kind test) and its result is used. (C06.unexp) a struct field value returned by resolveIndex comes from the exported-only cache (buildCache stores a field only under PkgPath == \"\") " +
 				"or lies behind the PkgPath test. (C06.nil) resolveIndex tests for a nil interface before MethodByName, indirect() stops at nil, every failing return of the resolver carries a " +
 				"non-nil error, the only (zero value, nil error) result is the absent map key at the end of a chain, and promoted fields are reached by a walker that tests IsNil before Elem (never reflect.Value.FieldByIndex, which panics on a nil embedded pointer). (C06.same) a.b, a.b.c, a[\"b\"] and isset all resolve through resolveIndex " +
-				"and perform no reflect lookup of their own. (C06.cache) every value stored into the struct field-index cache (the per-type map and each field's index path) is a fresh allocation made for that entry, never storage shared with a sibling path or the caller.",
+				"and perform no reflect lookup of their own. (C06.cache) every value stored into the struct field-index cache (the per-type map and each field's index path) is a fresh allocation made for that entry, never storage shared with a sibling path or the caller. (C06.cache, continued) buildCache writes an entry only where none exists or the new index path is not longer (the shallowest field wins, as in Go); the field table resolveIndex consults is the one found in or stored into the package-level map on every path. (C06.nil, continued) indirect() returns a non-nil result only for a value that is neither pointer nor interface.",
 			NotDecided:  "that reflection finds the right field for every type shape (promoted/shadowed fields), pointer-receiver methods on non-addressable values, executeSet's writes.",
 			Assumptions: []string{"Go's reflect package panics exactly as documented"},
 			Trusted:     commonTrusted,
